@@ -340,7 +340,10 @@ func (e *c04Exec) subRun(z zoneCfg) (out []string, sdig string, infra string) {
 					continue
 				}
 				fresh := compile(c.Programs[op.Prog], nil)
-				if fresh.ok() != progs[op.Prog].ok() || fresh.kinds() != progs[op.Prog].kinds() {
+				// node kinds come from the H1 seam; a Compile that legitimately reuses an earlier
+				// parse never reaches the seam, so kinds are compared only when both compiles did
+				kindsDiffer := len(fresh.nodes) > 0 && len(progs[op.Prog].nodes) > 0 && fresh.kinds() != progs[op.Prog].kinds()
+				if fresh.ok() != progs[op.Prog].ok() || kindsDiffer {
 					e.violate("recompile-same", "recompile", fmt.Sprintf("program %q compiled ok=%v kinds=%s first, ok=%v kinds=%s later in the same history",
 						c.Programs[op.Prog].Src, progs[op.Prog].ok(), progs[op.Prog].kinds(), fresh.ok(), fresh.kinds()))
 					continue
